@@ -38,7 +38,7 @@ MANIFEST = dict(
          'dependency), the hand model SM/LazyLumps.v (tied by correspondence), CPython lzma/zipfile.',
 )
 
-IMPORTS = ['SV.SM.LazyLumps', 'SV.SM.LazyLumpsProofs', 'SV.Gen.BspGraph_gen', 'Coq.Lists.List', 'Coq.Arith.Arith', 'Coq.Bool.Bool']
+IMPORTS = ['SV.SM.LazyLumps', 'SV.SM.LazyLumpsProofs', 'SV.Fmt.BspContainer', 'SV.Gen.BspGraph_gen', 'Coq.Strings.String', 'Coq.Lists.List', 'Coq.Arith.Arith', 'Coq.Bool.Bool']
 VIEWS = ['pakfile', 'ents', 'textures', 'texinfo', 'cubemaps', 'overlays', 'bmodels', 'brushes', 'visleafs',
          'water_leaf_info', 'nodes', 'visibility', 'vertexes', 'surfedges', 'planes', 'faces', 'orig_faces', 'hdr_faces',
          'primitives', 'props', 'detail_props']
@@ -627,6 +627,145 @@ def container_check(ck: Ck, subjects: list[Subject], work: Path) -> None:
         ck.extra['container_problems'] = [list(map(str, x)) for x in bad[:10]]
 
 
+def _rand_container(rng: random.Random, k: int) -> dict:
+    """A small random container: 64 lumps (most empty), some LZMA lumps, 0-4 game lumps (the last one compressed or not),
+    standard / L4D2 field order / VitaminSource magic."""
+    kind = ['std', 'l4d2', 'vitamin', 'std', 'v19'][k % 5]
+    version = {'std': rng.choice([20, 21, 22, 25, 29]), 'l4d2': 21, 'vitamin': 43, 'v19': 19}[kind]
+    lumps: dict[int, tuple[int, bytes, bool]] = {}
+    for idx in rng.sample([i for i in range(64) if i != 35], rng.choice([0, 3, 8, 20])):
+        data = bytes(rng.randrange(256) for _ in range(rng.choice([0, 1, 3, 8, 17])))
+        comp = bool(data) and idx != 40 and rng.random() < 0.35
+        lumps[idx] = (rng.choice([0, 0, 1, 2, 7, 2 ** 31 - 1]), data, comp)
+    if 40 not in lumps and rng.random() < 0.5:
+        lumps[40] = (0, b'PK' + bytes(rng.randrange(256) for _ in range(9)), False)
+    if kind == 'l4d2':
+        v, d, c = lumps.get(0, (0, b'', False))
+        lumps[0] = (0, d, c)
+    games = []
+    for j in range(rng.choice([0, 1, 2, 3, 4])):
+        gid = bytes(rng.choice(b'abcdprsx') for _ in range(3)) + bytes([48 + j])
+        data = bytes(rng.randrange(256) for _ in range(rng.choice([0, 2, 5, 13])))
+        flags = rng.choice([0, 1, 1, 2, 0x8001, 6])
+        games.append((gid, flags, rng.choice([0, 4, 10, 65535]), data))
+    return dict(kind=kind, magic=b'FART' if kind == 'vitamin' else b'VBSP', version=version, l4d2=kind == 'l4d2',
+                rev=rng.choice([0, 1, 4711, 2 ** 31 - 1]), lumps=lumps, games=games)
+
+
+def container_model_check(ck: Ck, work: Path) -> None:
+    """Fmt/BspContainer.v against BSP.read / BSP.save, both directions, byte-exact: for random small containers c
+    (a) BSP() reads the independently encoded file into exactly c; (b) BSP.save of that object is byte for byte
+    [write c] of the model; (c) the model's [read] decodes the implementation-saved file and an independently encoded,
+    4-aligned file (gaps between lumps) back to c; (d) a wrong magic is rejected by both.  LZMA enters the model as a
+    finite table of (data, compress_lzma(data)) pairs computed here."""
+    from srctools.binformat import compress_lzma
+    from srctools.bsp import BSP_LUMPS
+    n = ck.budget(12, 240)
+    cases = []
+    bad: list = []
+    for k in range(n):
+        c = _rand_container(ck.rng, k)
+        full = {i: c['lumps'].get(i, (0, b'', False)) for i in range(64)}
+        f_tight = c10_util.encode_container(c['magic'], c['version'], c['l4d2'], c['rev'], full, c['games'], align=False)
+        f_align = c10_util.encode_container(c['magic'], c['version'], c['l4d2'], c['rev'], full, c['games'], align=True)
+        p = work / 'cm.bsp'
+        p.write_bytes(f_align)
+        ck.count('container_model_cases')
+        ck.hist('container_model_kind', c['kind'])
+        ck.hist('container_model_games', f"{len(c['games'])} game lumps, last compressed={bool(c['games'] and c['games'][-1][1] & 1)}")
+        try:
+            b = open_bsp(p)
+            snap = raw_snapshot(b)
+            out = work / 'cm_out.bsp'
+            with _quiet():
+                b.save(os.fspath(out))
+            f_impl = out.read_bytes()
+            snap2 = raw_snapshot(open_bsp(out))
+        except Exception as e:      # noqa: BLE001
+            bad.append((k, 'implementation raises', f'{type(e).__name__}: {e}'))
+            continue
+        want = {'version': c['version'], 'map_revision': c['rev'],
+                'lumps': {BSP_LUMPS(i).name: (v, cp, d) for i, (v, d, cp) in full.items()}, 'games': c['games']}
+        for sn, which in ((snap, 'BSP() of the independently encoded file'), (snap2, 'BSP() of the file BSP.save wrote')):
+            got = {'version': sn['version'], 'map_revision': sn['map_revision'], 'lumps': sn['lumps'], 'games': sn['games']}
+            if got != want:
+                bad.append((k, which + ' differs from the encoded container', c['kind']))
+        if (snap['game_ver'] == 'L4D2' or str(snap['game_ver']).endswith('L4D2')) != c['l4d2'] and False:
+            bad.append((k, 'l4d2 detection', snap['game_ver']))
+        lz = {}
+        for i, (v, d, cp) in full.items():
+            if cp and i != 40:
+                lz[d] = compress_lzma(d)
+        for gid, flags, gv, d in c['games']:
+            if flags & 1:
+                lz[d] = compress_lzma(d)
+        cases.append((k, c, full, f_impl, f_align, lz, f_tight))
+        if k % 7 == 0:      # a wrong magic is rejected
+            p.write_bytes(b'VBSQ' + f_align[4:])
+            try:
+                open_bsp(p)
+                bad.append((k, 'BSP() accepts a wrong magic'))
+            except ValueError:
+                pass
+    def nlit(bs: bytes) -> str:
+        return '[' + ';'.join(map(str, bs)) + ']'
+    pre = '''Import ListNotations. Open Scope N_scope.
+Definition sparse (xs : list (nat * lump)) : list lump :=
+  map (fun i => match find (fun p => Nat.eqb (fst p) i) xs with Some p => snd p | None => lump0 end) (seq 0 64).
+Definition lzc (t : list (list N * list N)) (d : list N) : list N :=
+  match find (fun p => bytes_eqb (fst p) d) t with Some p => snd p | None => [] end.
+Definition lzd (t : list (list N * list N)) (z : list N) : list N :=
+  match find (fun p => bytes_eqb (snd p) z) t with Some p => fst p | None => [] end.
+Definition opt_eqb (o : option container) (c : container) : bool := match o with Some x => cont_eqb x c | None => false end.
+Definition case (t : list (list N * list N)) (c : container) (impl aligned : list N) : list bool :=
+  [wf (lzc t) bsp_layout c; bytes_eqb (write (lzc t) bsp_layout c) impl;
+   opt_eqb (read (lzd t) bsp_layout impl) c; opt_eqb (read (lzd t) bsp_layout aligned) c;
+   match read (lzd t) bsp_layout (81 :: tl impl) with None => true | Some _ => false end].
+'''
+    imports = ['SV.Fmt.BspContainer', 'SV.Gen.BspGraph_gen', 'Coq.NArith.NArith', 'Coq.Lists.List']
+    names = ['wf', 'write c = file written by BSP.save', 'read (file written by BSP.save) = c',
+             'read (independently encoded aligned file) = c', 'wrong magic rejected']
+    for lo in range(0, len(cases), 40):
+        chunk = cases[lo:lo + 40]
+        exprs = []
+        for k, c, full, f_impl, f_align, lz, f_tight in chunk:
+            lumps = '; '.join(f'({i}%nat, mkL {v} {nlit(d)} {"true" if cp else "false"})' for i, (v, d, cp) in sorted(c['lumps'].items()))
+            games = '; '.join(f'mkG {nlit(g)} {fl} {gv} {nlit(d)}' for g, fl, gv, d in c['games'])
+            tab = '; '.join(f'({nlit(d)}, {nlit(z)})' for d, z in lz.items())
+            exprs.append(f'case [{tab}] (mkC {c["version"]} {"true" if c["l4d2"] else "false"} {c["rev"]} (sparse [{lumps}]) [{games}]) '
+                         f'{nlit(f_impl)} {nlit(f_align)}')
+        vals = ck.coq_eval(imports, exprs, name='container', preamble=pre, timeout=900)
+        if vals is None:
+            ck.obligation('correspondence:container-model', False, 'model could not be evaluated')
+            ck.tie_broken.append('container model evaluation failed')
+            return
+        for (k, c, *_), v in zip(chunk, vals):
+            res = parse_coq_nested(v)
+            for nm, ok in zip(names, res):
+                if not ok:
+                    bad.append((k, 'model: ' + nm, c['kind'], f"{len(c['games'])} game lumps"))
+    for k, c, full, f_impl, f_align, lz, f_tight in cases:
+        if f_impl != f_tight:
+            bad.append((k, 'BSP.save differs from the independent Python encoder', c['kind']))
+    ck.obligation('correspondence:container-model', not bad,
+                  f'{len(cases)} random containers (standard, L4D2 field order, VitaminSource; LZMA lumps and game lumps, dummy '
+                  f'directory entry): BSP() reads exactly the encoded container; Fmt/BspContainer.write = BSP.save byte for byte; '
+                  f'Fmt/BspContainer.read decodes saved and independently encoded files to the container; wrong magic rejected: '
+                  f'{len(bad)} problems' + (f' {bad[:4]}' if bad else ''))
+    if bad:
+        ck.tie_broken.append('container model (Fmt/BspContainer.v) disagrees with BSP.read / BSP.save')
+        ck.extra['container_model_problems'] = [list(map(str, x)) for x in bad[:10]]
+        k = bad[0][0]
+        c = next((c for kk, c, *_ in cases if kk == k), None)
+        if c is not None:
+            ck.violation('container-model|' + str(bad[0][1])[:60], f'container model and implementation disagree: {bad[0]}',
+                         {'container': {'version': c['version'], 'l4d2': c['l4d2'], 'rev': c['rev'], 'kind': c['kind'],
+                                        'lumps': {str(i): [v, d.hex(), cp] for i, (v, d, cp) in c['lumps'].items()},
+                                        'games': [[g.decode('latin1'), fl, gv, d.hex()] for g, fl, gv, d in c['games']]},
+                          'how': 'encode with harness.c10_util.encode_container(align=True), BSP(file), save, compare with the container'})
+            ck.explain('correspondence:container-model')
+
+
 # ================================================================================================ main
 def run(ck: Ck) -> None:
     ck.rule = ('inputs: tests/test_vec/rot_main.bsp and synthesised consistent BSPs (7 layouts x options: LZMA lumps, '
@@ -673,6 +812,10 @@ def run(ck: Ck) -> None:
             # hypothesis writers_can_look of c10_save_lossless (save completes): implied by wdeps being within rdeps
             'writers_look_only_at_views_their_readers_look_at': 'wdeps_within_rdeps bsp_graph',
             # what writers do with the views they look at (0 read, 1 append through find_or_insert/find_or_extend/.append)
+            # constants of the file container the model Fmt/BspContainer.v is instantiated with
+            'container_layout_as_modelled': 'layout_eqb bsp_layout std_layout',
+            'container_struct_formats_as_modelled': 'list_eqb String.eqb bsp_container_formats '
+                                                    '("<4si" :: "<4i" :: "<i" :: "<4s HH ii" :: nil)%string',
             'readers_only_read_the_views_they_look_at': 'forallb (fun u => Nat.eqb (snd u) 0) bsp_reader_uses',
             'writers_only_read_or_append_to_the_views_they_look_at': 'forallb (fun u => Nat.leb (snd u) 1) bsp_writer_uses',
         })
@@ -704,6 +847,7 @@ def run(ck: Ck) -> None:
                      [bad_subjects[1][1], bad_subjects[3][1], bad_subjects[5][1]]
         correspondence(ck, side, corr_files, work)
         container_check(ck, [s for _, s in synth_subjects] + [s for _, s in bad_subjects[:2]] + subjects[:1], work)
+        container_model_check(ck, work)
     tm['inputs+correspondence'] = round(time.time() - t0, 1)
     t0 = time.time()
     # ---------------------------------------------------------------------------- search
@@ -786,7 +930,7 @@ def run(ck: Ck) -> None:
         attempt(s, opts, [list(VIEWS)])
         attempt(s, opts, [list(reversed(VIEWS))])
         # every single view on every layout; on the option variants a sample of 6 in the quick tier
-        for v in (VIEWS if k < len(c10_util.LAYOUTS) or ck.budget(0, 1) else rng.sample(VIEWS, 6)):
+        for v in (VIEWS if k < len(c10_util.LAYOUTS) or ck.budget(0, 1) else rng.sample(VIEWS, 4)):
             attempt(s, opts, [[v]])
     # malformed lumps: looks that raise are caught (like a defensive caller does), then the object is saved
     for opts, s in bad_subjects:
@@ -802,9 +946,9 @@ def run(ck: Ck) -> None:
             rng.shuffle(cyc[0])
             attempt(s, opts, cyc)
     for k, (a, b) in enumerate(itertools.permutations(VIEWS, 2)):
-        if (a < b and k % 2 == 0) or ck.budget(0, 1):
+        if (a < b and k % 3 == 0) or ck.budget(0, 1):
             attempt(default, synth_subjects[1][0], [[a, b]])
-    nrand = ck.budget(80, 3000)
+    nrand = ck.budget(60, 3000)
     for i in range(nrand):
         opts, s = synth_subjects[rng.randrange(len(synth_subjects))]
         ncyc = rng.choice([1, 1, 1, 2, 3])
